@@ -142,3 +142,34 @@ Proof.
   exact (fmm_exactly_once d Hd Hcap H B mode s t idx HH Hok Hp Hr Hne Hs p q Hpp Hq).
 Qed.
 Print Assumptions C03_omp_exactly_once.
+
+(* ---- the target/source OpenMP executor (TbfOpenmpAlgorithmTsm): task model Sched/OmpTsmDefs.v, proofs Sched/OmpTsmProofs.v ---- *)
+From Tbfmm Require Import Exec.ExecTsmDefs Sched.OmpTsmDefs Sched.OmpTsmProofs.
+
+Theorem C03_omp_tsm_tasks_wf : forall d per H Bs Bt ms mt stop flags src tgt idxs idxt,
+  (0 < d)%nat -> 1 <= H -> tree_ok (parent d) H Bs ms src -> tree_ok (parent d) H Bt mt tgt ->
+  particles_ok idxs src -> particles_ok idxt tgt ->
+  Forall (task_wf (H - 1)) (omp_tsm_tasks d per stop flags src tgt).
+Proof. exact omp_tsm_tasks_wf. Qed.
+Print Assumptions C03_omp_tsm_tasks_wf.
+
+(* MAIN for the target/source executor: every legal schedule leaves the state of the sequential target/source executor *)
+Theorem C03_omp_tsm_equals_seq : forall d per H Bs Bt ms mt stop src tgt idxs idxt sigma,
+  (0 < d)%nat -> 1 <= H -> tree_ok (parent d) H Bs ms src -> tree_ok (parent d) H Bt mt tgt ->
+  particles_ok idxs src -> particles_ok idxt tgt ->
+  legal (omp_tsm_tasks d per stop 63 src tgt) sigma ->
+  st_eq (run_schedule (H - 1) (omp_tsm_tasks d per stop 63 src tgt) sigma st0)
+        (run (H - 1) (execute_tsm d per stop 63 src tgt) st0).
+Proof. exact omp_tsm_equals_seq. Qed.
+Print Assumptions C03_omp_tsm_equals_seq.
+
+(* hence every target receives every source exactly once under every legal schedule *)
+Theorem C03_omp_tsm_exactly_once : forall d H B mode s src tgt idxs idxt sigma, (0 < d)%nat -> 1 <= H ->
+  tree_ok (parent d) H B mode src -> tree_ok (parent d) H B mode tgt -> particles_ok idxs src -> particles_ok idxt tgt ->
+  Forall (fun i => 0 <= i < 2 ^ ((H - 1) * dz d)) idxs -> Forall (fun i => 0 <= i < 2 ^ ((H - 1) * dz d)) idxt ->
+  idxs <> [] -> idxt <> [] -> s <= 2 ->
+  legal (omp_tsm_tasks d false s 63 src tgt) sigma ->
+  forall p q, 0 <= p < zlen idxt -> 0 <= q < zlen idxs ->
+    reached (run_schedule (H - 1) (omp_tsm_tasks d false s 63 src tgt) sigma st0) p q = 1%nat.
+Proof. exact omp_tsm_exactly_once. Qed.
+Print Assumptions C03_omp_tsm_exactly_once.
